@@ -386,7 +386,7 @@ theorem nodup_handleM (r : Router) (m p : String) (item : Option H) (hn : (r.tre
 
 /-! ### requests -/
 
-theorem mem_methodsAllowed' {r : Router} (hn : (r.trees.map (·.1)).Nodup) (m p x : String) :
+theorem mem_methodsAllowed_trees {r : Router} (hn : (r.trees.map (·.1)).Nodup) (m p x : String) :
     x ∈ methodsAllowed r m p ↔ (x ≠ m ∧ (searchClean (treeOf r x) p).isSome = true) := by
   unfold methodsAllowed
   simp only [List.mem_map, List.mem_filter, Bool.and_eq_true, bne_iff_ne, ne_eq]
@@ -416,7 +416,7 @@ theorem serve_same_trees {r r' : Router} (hn : (r.trees.map (·.1)).Nodup) (hn' 
     (serve r' m p = .notFound ↔ serve r m p = .notFound) ∧
     (∀ al', serve r' m p = .notAllowed al' → ∃ al, serve r m p = .notAllowed al ∧ ∀ x, x ∈ al' ↔ x ∈ al) := by
   have hmem : ∀ x, x ∈ methodsAllowed r' m p ↔ x ∈ methodsAllowed r m p := by
-    intro x; rw [mem_methodsAllowed' hn', mem_methodsAllowed' hn, hs]
+    intro x; rw [mem_methodsAllowed_trees hn', mem_methodsAllowed_trees hn, hs]
   have hnil : methodsAllowed r' m p = [] ↔ methodsAllowed r m p = [] := by
     constructor <;> intro h <;> apply List.eq_nil_iff_forall_not_mem.mpr <;> intro x hx
     · have := (hmem x).mpr hx; rw [h] at this; cases this
